@@ -51,6 +51,9 @@ BUILT = {
  "C17": ("exploration", "runtime monitor: hook on LarkParser.parse counting _ambig nodes; round-trip of the transformer's component tree against the generating AST; metamorphic layout comparison of trees and LineEvent traces",
          "Generated ASTs over every function name of the factory (125 with learned valid shapes) are rendered in several layouts and parsed by the real parser; each built tree must equal the written AST with no ambiguity node, and runnable programs must give identical traces, printouts and errors in every layout and with an outer comment.",
          "AST->text printer of the generator (validated by the round trip itself); arity table learned from the code under test", "DESIGN.md#c17"),
+ "C18": ("fault_enumeration", "runtime monitor: fault injection at every (member, line) abort point of real named-paths runs under a 'raise' policy, observed at the caller boundary and by archive checkers, tree+hash snapshots and a follow-up run",
+         "For each generated group every abort point x 2 fault kinds is executed (methods rotating over all six): the exception must reach the caller, every started member must have readable meta/vars/errors with the aborting error and its line number and completed false, earlier members must stay complete and consistent, the run manifest must not say complete, inputs/ must be unchanged, and a following run on the same instance must archive normally in its own directory. Known finding F20 (abort on the final record) is reported after all other obligations were checked.",
+         "data-driven faults (argument rejected by add(); ZeroDivisionError inside mod()); members pre-checked to be fault-free otherwise", "DESIGN.md#c18"),
 }
 
 def source_commits():
